@@ -656,7 +656,7 @@ def expand(template_path, tree):
             body = desugar_ref_patterns(body, gen.drops, fn_disp)
             body = desugar_for_vec_refs(body, gen.drops, fn_disp)
             # rule 6: `_ = E;` (destructuring assignment to the wildcard) -> `let _ = E;`
-            nb = re.sub(r"(?m)^(\s*)_\s*=\s*(?!=)", r"\1let _ = ", body)
+            nb = re.sub(r"(?m)^(\s*)_\s*=(?![=>])\s*", r"\1let _ = ", body)
             if nb != body:
                 gen.drops.append("%s: `_ = E;` rewritten to `let _ = E;` (rule 6)" % fn_disp)
                 body = nb
